@@ -20,6 +20,8 @@ def run_one(sid):
     meta_p = os.path.join(VERIF, "seeded", sid, "meta.json")
     meta = json.load(open(meta_p))
     prop = meta["property"]
+    if str(meta.get("status", "")).startswith("obsolete"):
+        return sid, prop, "obsolete", ""
     wt = f"/tmp/sdm_{sid}"
     subprocess.run(["git", "-C", "/repo", "worktree", "remove", "--force", wt], capture_output=True)
     subprocess.run(["git", "-C", "/repo", "worktree", "add", "--detach", wt, "HEAD"], capture_output=True, check=True)
@@ -74,6 +76,8 @@ def main():
                 how.append(f"{m.group(3)} model-vs-code disagreements")
             if int(m.group(4)):
                 how.append(f"{m.group(4)} failing inputs")
+        if outcome == "obsolete":
+            how = ["no longer breaks the property on the repaired tree (demonstration passes with the change applied): " + meta["status"][:120]]
         rows.append(f"| {sid} | {prop} | {meta.get('change', '')} | {meta.get('needs_to_manifest', '')} | **{outcome}** | {'; '.join(how)} |")
         print(sid, prop, outcome, summary)
     if not args:
